@@ -80,7 +80,10 @@ type lsState struct {
 	// decoration that records its line start exactly there puts the End() of that content on the
 	// next line; atEnd counts such line starts in the current step, unkStart the line starts whose
 	// offset could not be related to the cursor.
-	cend     lsPos
+	cend lsPos
+	// raw: the end of the last raw string literal that spans lines (FileRestorer.rawLiteralEnd):
+	// equal to the cursor on entry when the node's last token is such a literal, else nowhere
+	raw      lsPos
 	atEnd    int
 	unkStart int
 	// filled: local slices (collections of comments that are handed on later) known to hold
@@ -102,7 +105,7 @@ type lsState struct {
 }
 
 func (s *lsState) clone() *lsState {
-	n := &lsState{fresh: s.fresh, cur: s.cur, mark: s.mark, cend: s.cend, atEnd: s.atEnd, unkStart: s.unkStart, offs: map[types.Object]lsPos{}, filled: map[types.Object]bool{}, nextEp: s.nextEp, poss: map[types.Object]lsPos{}, alias: map[types.Object]bool{}, bools: map[types.Object]bool{}, ints: map[types.Object]int64{}, breaks: s.breaks, done: s.done, cont: s.cont, advs: s.advs, inner: s.inner}
+	n := &lsState{fresh: s.fresh, cur: s.cur, mark: s.mark, cend: s.cend, raw: s.raw, atEnd: s.atEnd, unkStart: s.unkStart, offs: map[types.Object]lsPos{}, filled: map[types.Object]bool{}, nextEp: s.nextEp, poss: map[types.Object]lsPos{}, alias: map[types.Object]bool{}, bools: map[types.Object]bool{}, ints: map[types.Object]int64{}, breaks: s.breaks, done: s.done, cont: s.cont, advs: s.advs, inner: s.inner}
 	for k, v := range s.poss {
 		n.poss[k] = v
 	}
@@ -133,6 +136,7 @@ func newLsState(fresh bool) *lsState {
 	if !fresh {
 		s.cend = s.cur
 	}
+	s.raw = lsPos{-4, 0}
 	return s
 }
 
@@ -156,11 +160,16 @@ func (s *lsState) rebase(drop func(types.Object) bool) {
 	old := s.cur
 	fresh := s.mark == s.cur
 	atCend := s.cend == s.cur
+	atRaw := s.raw == s.cur
 	s.offs = map[types.Object]lsPos{}
 	defer func() {
 		s.cend = lsPos{-3, 0}
 		if atCend {
 			s.cend = s.cur
+		}
+		s.raw = lsPos{-4, 0}
+		if atRaw {
+			s.raw = s.cur
 		}
 	}()
 	for o, p := range s.poss {
@@ -190,7 +199,7 @@ func (s *lsState) key() string {
 		parts = append(parts, fmt.Sprintf("%s@%d filled=%v", k.Name(), k.Pos(), v))
 	}
 	sort.Strings(parts)
-	return fmt.Sprintf("fresh=%v at-content-end=%v %s", s.fresh, s.cend == s.cur, strings.Join(parts, " "))
+	return fmt.Sprintf("fresh=%v at-content-end=%v at-raw-end=%v %s", s.fresh, s.cend == s.cur, s.raw == s.cur, strings.Join(parts, " "))
 }
 
 type lsEval struct {
@@ -203,6 +212,35 @@ type lsEval struct {
 	// dAlias: parameters of inlined helpers that stand for the decoration text
 	dAlias map[types.Object]bool
 	depth  int
+	capN   int64
+}
+
+// intCap: one more than the largest integer constant that occurs in a comparison of the package's
+// restorer code the machine walks (at least 3).
+func (v *lsEval) intCap() int64 {
+	if v.capN > 0 {
+		return v.capN
+	}
+	v.capN = 3
+	for _, fd := range load.AllFuncDecls(v.e.Prog.Pkg(load.PkgDecorator)) {
+		if fd.Body == nil || !isRestorePath(fd) {
+			continue
+		}
+		ast.Inspect(fd.Body, func(n ast.Node) bool {
+			if be, ok := n.(*ast.BinaryExpr); ok {
+				switch be.Op {
+				case token.LSS, token.GTR, token.LEQ, token.GEQ, token.EQL, token.NEQ:
+					for _, side := range []ast.Expr{be.X, be.Y} {
+						if k, ok := constInt(v.info, side); ok && k+1 > v.capN && k < 64 {
+							v.capN = k + 1
+						}
+					}
+				}
+			}
+			return true
+		})
+	}
+	return v.capN
 }
 
 func (v *lsEval) fail(f string, a ...interface{}) {
@@ -564,6 +602,8 @@ func (v *lsEval) posVal(s *lsState, x ast.Expr) (lsPos, bool) {
 		return s.cur, true
 	case v.isField(x, "cursorAtNewLine"):
 		return s.mark, true
+	case v.isField(x, "rawLiteralEnd"):
+		return s.raw, true
 	}
 	switch t := x.(type) {
 	case *ast.Ident:
@@ -836,6 +876,9 @@ func (v *lsEval) stmt(s *lsState, st ast.Stmt) {
 				if _, isSlice := o.Type().Underlying().(*types.Slice); isSlice && i >= len(vs.Values) {
 					s.filled[o] = false // var x []T
 				}
+				if _, isPtr := o.Type().Underlying().(*types.Pointer); isPtr && i >= len(vs.Values) {
+					s.filled[o] = false // var p *T: nil
+				}
 				switch b := o.Type().Underlying().(type) {
 				case *types.Basic:
 					switch {
@@ -887,7 +930,12 @@ func (v *lsEval) stmt(s *lsState, st ast.Stmt) {
 			if o := v.info.Uses[id]; o != nil {
 				if n, tracked := s.ints[o]; tracked {
 					if x.Tok == token.INC {
-						s.ints[o] = n + 1
+						// a counter that is only ever compared with small constants: beyond the
+						// largest of them every value behaves the same, so it saturates there
+						// (keeps the state space of the list walk finite)
+						if n < v.intCap() {
+							s.ints[o] = n + 1
+						}
 					} else {
 						s.ints[o] = n - 1
 					}
@@ -977,6 +1025,13 @@ func (v *lsEval) stmt(s *lsState, st ast.Stmt) {
 			default:
 				id, ok := l.(*ast.Ident)
 				if !ok {
+					// G.List = append(G.List, comment): the comment joins a group that is in the
+					// file's comment list already
+					if se, isSel := ast.Unparen(l).(*ast.SelectorExpr); isSel && se.Sel.Name == "List" {
+						if p, tn := namedOf(v.info.TypeOf(se.X)); p == "go/ast" && tn == "CommentGroup" {
+							s.sinks = append(s.sinks, "file")
+						}
+					}
 					continue // a store into something this state does not track
 				}
 				if id.Name == "_" {
@@ -1004,6 +1059,21 @@ func (v *lsEval) stmt(s *lsState, st ast.Stmt) {
 						}
 					} else {
 						delete(s.poss, o)
+					}
+					continue
+				}
+				if _, isPtr := o.Type().Underlying().(*types.Pointer); isPtr {
+					// nil-ness of a local pointer: p = &T{…} sets it, p = nil clears it
+					delete(s.filled, o)
+					switch rv := ast.Unparen(r).(type) {
+					case *ast.Ident:
+						if rv.Name == "nil" {
+							s.filled[o] = false
+						}
+					case *ast.UnaryExpr:
+						if _, isLit := ast.Unparen(rv.X).(*ast.CompositeLit); isLit && rv.Op == token.AND {
+							s.filled[o] = true
+						}
 					}
 					continue
 				}
@@ -1366,6 +1436,7 @@ func (e *Env) lineStateApplySpace() {
 
 type lsRef struct {
 	fresh, first bool
+	atRaw        bool // the cursor has not moved since the multi-line raw string literal the node ends with
 }
 
 var lineStateDone = map[*Env]bool{}
@@ -1434,21 +1505,30 @@ func (e *Env) lineStateApplyDecorations() {
 		}
 		return "[" + strings.Join(seq, ", ") + "]"
 	}
-	states, steps := 0, 0
+	states, steps, envRound := 0, 0, 0
 	for _, end := range []bool{false, true} {
 		for _, hasField := range []bool{false, true} {
 			for _, pkgComment := range []bool{false, true} {
-				for _, fresh0 := range []bool{false, true} {
+				for _, fresh0 := range []bool{false, true, false} {
+					// third round: the list follows a raw string literal that spans lines (the cursor
+					// is where it ended, not on a fresh line)
+					afterRaw := false
+					if envRound++; envRound%3 == 0 {
+						afterRaw = true
+					}
 					env := &lsEnv{end: end, hasField: hasField, pkgComment: pkgComment, dObj: dObj, endObj: params[3], nodeObj: params[0], nameObj: params[1], decsObj: params[2]}
-					envName := fmt.Sprintf("end=%v, node has a Comment field=%v, package comment=%v, fresh line on entry=%v", end, hasField, pkgComment, fresh0)
+					envName := fmt.Sprintf("end=%v, node has a Comment field=%v, package comment=%v, fresh line on entry=%v, directly behind a multi-line raw string=%v", end, hasField, pkgComment, fresh0, afterRaw)
 					ev := &lsEval{e: e, c: c, info: info, env: env}
 					s0 := newLsState(fresh0)
+					if afterRaw {
+						s0.raw = s0.cur
+					}
 					ev.stmts(s0, before)
 					if ev.undec != "" {
 						e.Run.Undecided("R-SPACE", key, pos, "before the loop: "+ev.undec)
 						return
 					}
-					root := &node{code: s0, ref: lsRef{fresh: fresh0, first: true}}
+					root := &node{code: s0, ref: lsRef{fresh: fresh0, first: true, atRaw: afterRaw}}
 					seen := map[string]bool{root.code.key() + fmt.Sprint(root.ref): true}
 					work := []*node{root}
 					for len(work) > 0 {
@@ -1491,20 +1571,26 @@ func (e *Env) lineStateApplyDecorations() {
 							ref := cur.ref
 							if end && ref.fresh {
 								ref.fresh = false // End decorations are indented: the cursor steps off the line start
+								ref.atRaw = false
 							}
 							wantSink := ""
 							if cls == clsLine || cls == clsInline || cls == clsMulti {
 								wantSink = "file"
-								if ref.first && end && hasField {
+								// (go/parser: a comment is the node's line comment when it is on the
+								// line where the node's last token starts — not directly behind a raw
+								// string literal that began on an earlier line)
+								if ref.first && end && hasField && !ref.atRaw {
 									wantSink = "field"
 								}
 								ref.fresh = false
+								ref.atRaw = false
 							}
 							wantBreaks := 0
 							if cls == clsLine || cls == clsNL {
 								wantBreaks = 1
 								ref.fresh = true
 								ref.first = false
+								ref.atRaw = false
 							}
 							gotSink := strings.Join(nx.sinks, "+")
 							child := &node{code: nx, ref: ref, parent: cur, via: cls}
